@@ -33,6 +33,7 @@ func (c ChainCfg) YAML() string {
 	sb.WriteString("taint-tracking-problems:\n  - sources:\n      - package: \"vprog/rt$\"\n        method: \"^Source[B]?$\"\n")
 	sb.WriteString("    sinks:\n      - package: \"vprog/rt$\"\n        method: \"^Sink[S2]?$\"\n")
 	sb.WriteString(c.Problem)
+	sb.WriteString("slicing-problems:\n  - backtracepoints:\n      - package: \"vprog/rt$\"\n        method: \"^Sink[S2]?$\"\n")
 	sb.WriteString(c.TopLevel)
 	sb.WriteString("options:\n  log-level: 1\n")
 	fmt.Fprintf(&sb, "  field-sensitive: %v\n  summarize-on-demand: %v\n", c.FieldSens, c.OnDemand)
@@ -106,6 +107,8 @@ type ChainOpts struct {
 	Watchdog time.Duration
 	NativeRepeat int
 	NativeEnv    []string
+	// Analysis is "taint" (default) or "backtrace".
+	Analysis string
 }
 
 func usesCond(files map[string]string) bool {
@@ -199,7 +202,7 @@ func processBatch(run *core.Run, name string, b *gen.Batch, opts ChainOpts) *Bat
 	for _, c := range opts.Cfgs {
 		cp := filepath.Join(o.Dir, "cfg-"+c.Name+".yaml")
 		_ = os.WriteFile(cp, []byte(c.YAML()), 0o644)
-		job.Runs = append(job.Runs, TaintRunSpec{Name: c.Name, Config: cp, Rewrites: c.Rewrites, Repeat: opts.Repeat})
+		job.Runs = append(job.Runs, TaintRunSpec{Name: c.Name, Config: cp, Rewrites: c.Rewrites, Repeat: opts.Repeat, Analysis: opts.Analysis})
 	}
 	for _, ch := range b.Chains {
 		job.GuardFuncs = append(job.GuardFuncs, fmt.Sprintf("chain%d", ch.ID))
